@@ -12,7 +12,9 @@ def harness_names():
     for n in sorted(os.listdir(root)):
         d = os.path.join(root, n)
         if os.path.isdir(d) and any(f == "main.go" for f in os.listdir(d)):
-            out.append(n)
+            out.append((n, False))
+        elif os.path.isdir(d) and any(f.endswith("_test.go") for f in os.listdir(d)) and n != "sx":
+            out.append((n, True))
     return out
 
 
@@ -40,8 +42,8 @@ def main():
         if not ok:
             print(log[-3000:])
             rc = 1
-    for n in harness_names():
-        ok, log, _ = core.go_build(n)
+    for n, is_test in harness_names():
+        ok, log, _ = core.go_build(n, test=is_test)
         print("[setup] harness %s: %s" % (n, "ok" if ok else "FAILED"), flush=True)
         if not ok:
             print(log[-3000:])
